@@ -474,6 +474,56 @@ def run_multi(unit, ctx):
             "counters": {"multi_error_schemas_run": nsch}}
 
 
+# ---- deep chains: one applicator nested N times around a leaf (time must stay linear) -------
+CHAIN_N = 30
+CHAIN_LEAVES = [{"type": "string"}, {"type": "integer"}, {"enum": [0]}, {}]
+
+
+def chain_cases(d):
+    out = []
+    for wname, drafts, ws, wi in WRAPS:
+        if d not in drafts or wname in ("id", "definitions+ref", "dependencies/x", "propertyNames"):
+            continue
+        for leaf in CHAIN_LEAVES:
+            S, xs = leaf, [1, "s"]
+            for _ in range(CHAIN_N):
+                S = ws(S)
+                xs = [wi(x) for x in xs]
+            out.append((wname, S, xs))
+    # the same applicator written twice at every level keeps the schema linear in N but doubles the work per level
+    if d >= 4:
+        for kw in ("allOf", "anyOf", "oneOf"):
+            S = {"type": "string"}
+            for _ in range(CHAIN_N):
+                S = {kw: [S, {"type": "null"}]}
+            out.append((kw + "+null", S, [1, "s", None]))
+    return out
+
+
+def run_chains(unit, ctx):
+    d, _, shard, n = unit
+    signal.signal(signal.SIGALRM, _alarm)
+    cases = chain_cases(d)
+    ev = 0
+    viol, outcomes = [], {}
+    for i in range(shard, len(cases), n):
+        wname, S, xs = cases[i]
+        if not ok_schema(d, S):
+            continue
+        for x in xs:
+            for entry in ("is_valid", "iter_errors", "validate", "module_validate"):
+                ev += 1
+                r = run_one(d, S, x, entry)
+                key = "ok" if r is None else r[0]
+                outcomes[key] = outcomes.get(key, 0) + 1
+                if r is not None:
+                    viol.append({"signature": "C03|deep-chain|%s|%s|%s" % (r[0], r[1], wname), "size": len(str(S)),
+                                 "case": {"draft": d, "schema": S, "instance": x, "entry": entry},
+                                 "detail": {"exception": r[0], "where": r[1], "position": "%s nested %d times" % (wname, CHAIN_N)}})
+    return {"evaluations": ev, "nontrivial": ev, "violations": viol, "samples": [], "outcomes": outcomes,
+            "counters": {"deep_chain_executions": ev}}
+
+
 def plan(ctx):
     units = []
     sizes = {}
@@ -496,6 +546,10 @@ def plan(ctx):
         nr = 48 if ctx.thorough else 8
         units += [(d, "reuse", i, nr) for i in range(nr)]
         units += [(d, "multi", i, 4) for i in range(4)]
+        units += [(d, "chains", i, 4) for i in range(4)]
+    sizes["chain_depth"] = CHAIN_N
+    for d in _e1.DRAFTS:
+        sizes["chains_d%d" % d] = len(chain_cases(d))
     sizes["reuse_ops"] = len(REUSE_OPS) * len(REUSE_INSTANCES)
     sizes["reuse_depth"] = 3 if ctx.thorough else 2
     sizes["multi_error_combinations"] = len(MULTI_POS) * len(MULTI_SUBS) ** 2
@@ -512,7 +566,9 @@ def plan(ctx):
                  "$ref sibling, on ONE validator object every sequence of <= depth calls (entry point x instance), "
                  "every call may only end in a documented way; SEVERAL ERRORS: every ordered pair of small "
                  "subschemas (false included) in 9 two-slot positions x 10 instances through every entry point "
-                 "(best_match sees ties between errors of different origin); distinct by construction; "
+                 "(best_match sees ties between errors of different origin); DEEP CHAINS: every one-slot applicator "
+                 "position nested 30 times around 4 leaves (schema size linear in the depth) x matching instances x 4 "
+                 "entry points under the 5 s watchdog (work that doubles per level does not finish); distinct by construction; "
                  "non-trivial = every execution (each is a distinct accepted-schema/instance/entry-point triple)"),
         "bounds": dict(sizes, W=len(W), uplus=len(U), tier=ctx.tier),
         "assumptions": ["watchdog of 5 s per execution stands for 'hangs'",
@@ -552,6 +608,8 @@ def run_unit(unit, ctx):
         return run_reuse(unit, ctx)
     if unit[1] == "multi":
         return run_multi(unit, ctx)
+    if unit[1] == "chains":
+        return run_chains(unit, ctx)
     d, wname, shard, n = unit
     signal.signal(signal.SIGALRM, _alarm)
     U = uplus(ctx.tier)
